@@ -239,15 +239,21 @@ def incoq_sample(rundir, prefix, runfun, module, k, rng, maxlen=4000):
     """Re-evaluates a random sample of the cases inside Coq (vm_compute) and
     compares with the implementation's answers. Returns (n, problem or None)."""
     cases = shard_files(rundir, prefix, "cases")
-    picked = []
+    picked = []      # reservoir sample of size k (memory independent of the number of cases)
+    seen = 0
     for c in cases:
         i = c.replace(".cases.", ".impl.")
         with open(c) as fc, open(i) as fi:
             for lc, li in zip(fc, fi):
                 if len(lc) + len(li) <= maxlen:
-                    picked.append((lc.split()[1:], li.split()))
-    rng.shuffle(picked)
-    picked = picked[:k]
+                    seen += 1
+                    if len(picked) < k:
+                        picked.append((lc, li))
+                    else:
+                        j = rng.randrange(seen)
+                        if j < k:
+                            picked[j] = (lc, li)
+    picked = [(lc.split()[1:], li.split()) for lc, li in picked]
     if not picked:
         return 0, None
     vf = os.path.join(rundir, prefix.replace("-", "_") + "_cases.v")
